@@ -322,7 +322,8 @@ def hist_C16(tier):
             def grid(span):
                 for off in range(0, span):
                     for lim in range(0, span):
-                        ops.append({'op': 26, 'fk': fk, 'fa': fa, 'fb': fb, 'off': off, 'lim': lim})
+                        # a fifth of the listing requests also carry a query vector (fk + 16): neither K nor radius, still a listing
+                        ops.append({'op': 26, 'fk': fk + (16 if rng.random() < 0.2 else 0), 'fa': fa, 'fb': fb, 'off': off, 'lim': lim})
             # exhaustive (offset, limit) over {0..m+2}^2
             grid(m + 3)
             ops.append({'op': 26, 'fk': 0, 'fa': 1, 'fb': 0, 'off': 10**6, 'lim': 10**6})
